@@ -110,7 +110,7 @@ Proof. vm_compute. reflexivity. Qed.
    Both directions of a structure with a descriptor LIST, over the REGENERATED bodies of builder and decoder (Gen/PyFuncs.v) under the
    semantics of the small Python (Model/Py.v): GET LBA STATUS, any number of descriptors. *)
 From Coq Require Import ZArith List.
-From PS Require Import Model.Py Proofs.PyParsers Proofs.PyRoundTrip Gen.PyFuncs.
+From PS Require Import Model.Py Proofs.PyParsers Proofs.PyTotal Proofs.PyRoundTrip Gen.PyFuncs.
 Import ListNotations.
 
 (* the builder: header whose PARAMETER DATA LENGTH counts what follows it, then one 16-byte descriptor per dictionary, in order *)
@@ -140,3 +140,17 @@ Theorem C06_py_reportluns_parse_inverts_build : forall (vs : list N) f,
   exists built, call_fun all_tables py_program f RLM [PDict [("luns", PList (map lun_entry (numbered 0 vs)))]] = Ok (PBytes built) /\
     call_fun all_tables py_program f Proofs.PyTotal.RL [PBytes built] = Ok (PDict [("luns", PList (map lun_entry (numbered 0 vs)))]).
 Proof. exact reportluns_parse_inverts_build. Qed.
+
+(* READ CAPACITY(10) / (16): builder and decoder are each one table applied to the whole buffer (shape checked on the regenerated bodies by
+   computation); decoding what was built from a complete valid dictionary returns it — an instance of one theorem about that shape *)
+Theorem C06_py_readcapacity10_round_trip : forall (dv : list (String.string * value)) f, (1 <= f)%nat ->
+  valid_dict 8 T_rc10 dv = true -> map fst dv = map fst T_rc10 ->
+  exists built, call_fun all_tables py_program f "scsi_cdb_readcapacity10.ReadCapacity10.marshall_datain" [PDict (dict_of_decoded dv)] = Ok (PBytes built) /\
+    call_fun all_tables py_program f "scsi_cdb_readcapacity10.ReadCapacity10.unmarshall_datain" [PBytes built] = Ok (PDict (dict_of_decoded dv)).
+Proof. exact readcapacity10_round_trip. Qed.
+
+Theorem C06_py_readcapacity16_round_trip : forall (dv : list (String.string * value)) f, (1 <= f)%nat ->
+  valid_dict 32 T_rc16 dv = true -> map fst dv = map fst T_rc16 ->
+  exists built, call_fun all_tables py_program f "scsi_cdb_readcapacity16.ReadCapacity16.marshall_datain" [PDict (dict_of_decoded dv)] = Ok (PBytes built) /\
+    call_fun all_tables py_program f "scsi_cdb_readcapacity16.ReadCapacity16.unmarshall_datain" [PBytes built] = Ok (PDict (dict_of_decoded dv)).
+Proof. exact readcapacity16_round_trip. Qed.
